@@ -294,3 +294,17 @@ func caseConstsInto(b *ssa.BasicBlock) (ssa.Value, []int64, bool) {
 	}
 	return subject, ks, true
 }
+
+func init() {
+	// unexported types: the methods they declare (a leading ! excludes a type that declares that method)
+	TypeHints["server.peekConnection"] = []string{"Peek", "Read"}
+	TypeHints["server.timeoutConn"] = []string{"Read", "Write", "!Peek"}
+	TypeHints["storage.badgeStorage"] = []string{"Get", "Set"}
+	TypeHints["pushers/file.rotateFile"] = []string{"rotate", "reopen", "Write"}
+	TypeHints["listener/agent.conn2"] = []string{"send", "receive"}
+	TypeHints["listener/agent.agentConnection"] = []string{"Read", "Write", "receive"}
+	TypeHints["pushers.tokenChannel"] = []string{"Send", "!matches"}
+	TypeHints["services/ssh.sshSimulatorService"] = []string{"Handle", "SetChannel", "!SetDirector"}
+	// unexported package-level functions: their signature
+	FuncHints["server.compareAddr"] = "func(net.Addr, net.Addr) bool"
+}
